@@ -5,19 +5,27 @@ Oracle (exact rationals, on the implementation's outputs), three parts:
                     box lies within the returned error of the returned value, component by component.  By linearity the
                     worst corner of the box is at distance |ret_i - image_i| + sum_j |m_ij| e_j, which is what is compared
                     (identical to enumerating the 8 corners).
- (M) meaningfulness returned error <= 2 * (gamma3 * sum_j |m_ij x_j| + gamma3 * |m_i3| + sum_j |m_ij| e_j)  (+ 2^-1000)
+ (M) meaningfulness returned error <= 2 * (first-order worst case)  (+ 2^-1000), where the first-order worst case is
+                      POINT functions (and ray origins):      gamma3 * (sum_j |m_ij x_j| + |m_i3|) + sum_j |m_ij| e_j
+                      VECTOR functions (and ray directions):  gamma3 * sum_j |m_ij v_j| + sum_j |m_ij| e_j
+                    -- a vector's image is three products and two additions and never meets the translation column,
+                    so no translation term belongs to its yardstick ("whatever the size of the translation").
  (R) ray origin     the nudged origin is advanced by at most ||o_error||_2 and no corner of the error box around the
                     un-nudged origin lies ahead of it (both up to the rounding of the nudge itself, see ray_part).
 
 Signatures are  C16:<part>:<function>:<class> ; the class is a predicate on the case, computed here.
 Only ONE class is a recorded (known) finding of the current crate:
    C16:S:<fn>:underflow                  some product m_ij*x_j is non-zero and below 2^-968 (F9c; Coq: C16_S_underflow_refuted)
-Two classes describe defects that were REPAIRED in /repo (known_findings.json: status fixed, they suppress nothing; a
+Three classes describe defects that were REPAIRED in /repo (known_findings.json: status fixed, they suppress nothing; a
 reappearance is a VIOLATION):
    C16:S:<pt fn>:gamma3-vs-4-roundings   point row with a translation, excess below 4/3 (1+3u): what gamma(3) against four
                                          roundings produced before fix: 34af114 (Coq: C16_S_point_pinned_refuted; now C16_S_point)
    C16:M:<propagate fn>:translation      |m_i3| (1+gamma3) explains the excess: the translation column in the propagated input
                                          error before fix: 5455df2 (Coq: C16_M_pinned_refuted; now C16_M_propagate)
+   C16:M:<vector fn>:translation         gamma3 |m_i3| explains the excess: the translation column in the error of a transformed
+                                         VECTOR (vec_with_error, vec_propagate_error, the direction of the four ray functions)
+                                         before the fix of transform_vec_with_error / inv_transform_vec_with_error
+                                         (Coq: C16_M_vec_pinned_refuted; now C16_M_vec_with_error, C16_M_vec_propagate)
 Every other class (`within-proved-factor`: an input-box case above the returned error but inside the (1+4u) that is proved,
 `beyond-proved-bound`, `other`, every R failure) is a violation as well.
 """
@@ -36,11 +44,13 @@ RULE = ('chains of 0..6 elementary transforms (as C06) plus chains with three no
 ASSUMPTIONS = [
     'Coq 8.16.1 kernel + vm_compute; Flocq 4.1.0; float-tier theorems hold for every binary format with prec >= 8 (binary32/64 are instances), under the stated no-underflow / finiteness guards',
     'model = code: transform.rs error functions checked bit-for-bit on primitive floats (coq/Run/C06.v, ops 6,7,11..20)',
+    '(M) is stated against two yardsticks: points gamma3 (sum|m_ij x_j| + |m_i3|) + sum|m_ij| e_j (theorems C16_M_with_error, C16_M_propagate, guard safe_trans: m_i3 zero or not in the underflow range), vectors gamma3 sum|m_ij v_j| + sum|m_ij| e_j without any translation term and without any hypothesis on the translation (C16_M_vec_with_error, C16_M_vec_propagate); the factor 2 is the property\'s "small constant factor"',
     '(R) is proved on the real-number instance (exact tier); its float reading is sampled by the oracle with a rounding tolerance',
     'rustc/LLVM evaluate + - * / in IEEE-754 binary64 round-to-nearest-even without contraction on x86-64',
 ]
-THEOREMS = ['C16_S_vec', 'C16_S_point', 'C16_S_vec_box_partial', 'C16_S_point_box_partial', 'C16_M_with_error', 'C16_M_propagate',
-            'C16_S_point_pinned_refuted', 'C16_M_pinned_refuted', 'C16_S_underflow_refuted',
+THEOREMS = ['C16_S_vec', 'C16_S_point', 'C16_S_vec_box_partial', 'C16_S_point_box_partial',
+            'C16_M_with_error', 'C16_M_vec_with_error', 'C16_M_propagate', 'C16_M_vec_propagate',
+            'C16_S_point_pinned_refuted', 'C16_M_pinned_refuted', 'C16_M_vec_pinned_refuted', 'C16_S_underflow_refuted',
             'C16_R_nudge_forward', 'C16_R_no_box_point_ahead', 'C16_R_advance_bounded', 'C16_R_ray', 'C16_R_ray_propagate']
 
 def streams(tier):
@@ -108,17 +118,23 @@ def sound_part(fn, m, x, e, ret, err, is_pt, u, tiny):
                 % (fn, r, ' of the worst corner of the input box' if boxed else '', float(dev), float(bound), float(dev / bound) if bound else float('inf')))
     return None
 
-def meaningful_part(fn, m, x, e, err, u, g3, propagate):
+def meaningful_part(fn, m, x, e, err, u, g3, propagate, is_pt):
+    """(M) for one returned error.  The first-order worst case of a POINT row includes the rounding of the addition of
+    the translation entry (gamma3 |m_i3|); that of a VECTOR row does not: the image of a vector is
+    m_i0 x + m_i1 y + m_i2 z, which the translation never enters (Coq: first_order / first_order_vec)."""
     for r in range(3):
-        first = g3 * (sum(abs(m[r][k] * x[k]) for k in range(3)) + abs(m[r][3])) + sum(abs(m[r][k]) * e[k] for k in range(3))
+        first = g3 * (sum(abs(m[r][k] * x[k]) for k in range(3)) + (abs(m[r][3]) if is_pt else 0)) + sum(abs(m[r][k]) * e[k] for k in range(3))
         lim = 2 * first + Fr(1, 2 ** 1000)
         got = Fr(err[r])
         if got <= lim: continue
-        expl = abs(m[r][3]) * (1 + g3) * (1 + 8 * u)
-        cls = 'translation' if (propagate and m[r][3] != 0 and got - expl <= lim) else 'other'
+        # what the two repaired defects added to a row with a translation entry: |m_i3| (1+gamma3) in the propagated part
+        # (before fix: 5455df2), gamma3 |m_i3| in the rounding part of a VECTOR (before the fix of the vector functions)
+        expl = abs(m[r][3]) * (((1 + g3) if propagate else 0) + (0 if is_pt else g3)) * (1 + 8 * u)
+        cls = 'translation' if (m[r][3] != 0 and expl > 0 and got - expl <= lim) else 'other'
         return ('C16:M:%s:%s' % (fn, cls),
-                '%s: component %d: returned error %.6g is %.3g times the first-order worst case %.6g (translation entry of the row: %.6g)'
-                % (fn, r, float(got), float(got / first) if first else float('inf'), float(first), float(m[r][3])))
+                '%s: component %d: returned error %.6g is %.3g times the first-order worst case %.6g of a %s (translation entry of the row: %.6g)'
+                % (fn, r, float(got), float(got / first) if first else float('inf'), float(first),
+                   'point' if is_pt else 'vector (no translation term)', float(m[r][3])))
     return None
 
 def emul_pt(mf, x):
@@ -176,20 +192,20 @@ def all_failures(c, st):
         e = x[3:6] if op in PROPAGATE else Z
         if any(v < 0 for v in e): return []
         out.append(sound_part(fn, m, x[:3], e, o[:3], o[3:6], op in PT, u, tiny))
-        out.append(meaningful_part(fn, m, x[:3], e, o[3:6], u, g3, op in PROPAGATE))
+        out.append(meaningful_part(fn, m, x[:3], e, o[3:6], u, g3, op in PROPAGATE, op in PT))
         return [r for r in out if r]
     # rays: inputs origin, direction (, origin error box, direction error box); outputs origin', direction, o_error, d_error
     oe = x[6:9] if op in PROPAGATE else Z
     de = x[9:12] if op in PROPAGATE else Z
     if any(v < 0 for v in oe + de): return []
     out.append(sound_part(fn + ':direction', m, x[3:6], de, o[3:6], o[9:12], False, u, tiny))
-    out.append(meaningful_part(fn + ':direction', m, x[3:6], de, o[9:12], u, g3, op in PROPAGATE))
+    out.append(meaningful_part(fn + ':direction', m, x[3:6], de, o[9:12], u, g3, op in PROPAGATE, False))
     if not (st is not None and st.f32):   # the un-nudged origin is re-evaluated in binary64
         mf = tr[16:] if inv else tr[:16]
         ret = emul_pt(mf, i[:3])
         if all(finite(v) for v in ret):
             out.append(sound_part(fn + ':origin', m, x[:3], oe, ret, o[6:9], True, u, tiny))
-            out.append(meaningful_part(fn + ':origin', m, x[:3], oe, o[6:9], u, g3, op in PROPAGATE))
+            out.append(meaningful_part(fn + ':origin', m, x[:3], oe, o[6:9], u, g3, op in PROPAGATE, True))
             out.append(ray_part(fn, ret, o[:3], o[3:6], o[6:9], u))
     return [r for r in out if r]
 
